@@ -593,6 +593,14 @@ class Lib:
                 e = sub()
                 return VTuple([VInt(K()), e])
             return pull_enum
+        if is_call(it, "reversed") and len(it.args) == 1:
+            lst = eng.eval(st, it.args[0])
+            if isinstance(lst, VList):
+                def pull_rev():
+                    if not st.branch(K() < lst.n, f"forrev@{line}"):
+                        stop()
+                    return wrap(lst.eshape, lst.arr[lst.n - 1 - K()])
+                return pull_rev
         srcv = eng.eval(st, it)
         custom = self.ext.for_source(st, node, srcv, K, stop)
         if custom is not None:
@@ -1443,7 +1451,8 @@ class Lib:
                 st.ghost["result"] = result
                 st.locals["result"] = result
                 for cl in fc.ensures:
-                    st.assume(eng.spec_bool(st, cl))
+                    if not cl.internal:
+                        st.assume(eng.spec_bool(st, cl))
                 if not st.feasible(z3.BoolVal(True)):
                     raise E.PathEnd()   # the callee cannot return normally here
                 return result
@@ -1613,6 +1622,13 @@ class Lib:
         if isinstance(v, VU):
             return VInt(z3.Function("UINT", U, IntS)(v.t))
         raise self.E.Unsupported("int() of non-int")
+
+    def b_bytes(self, st, node):
+        eng = self.eng
+        v = eng.eval(st, node.args[0])
+        if isinstance(v, VU):
+            return VU(z3.Function("BYTESOF", U, U)(v.t))
+        raise self.E.Unsupported("bytes() of this value")
 
     def b_bool(self, st, node):
         eng = self.eng
